@@ -97,7 +97,8 @@ def parse_fmt(v, where):
 WIDTH = {'B': 1, 'H': 2, 'L': 4, 'I': 4, 'Q': 8}
 
 # opaque object kinds (Obj(kind) fields) whose class is a repository class
-OBJ_CLASSES = {'configuration': 'configuration.Configuration'}
+OBJ_CLASSES = {'configuration': 'configuration.Configuration', 'rsapriv': 'crypto.RsaPrivateKey',
+               'rsapub': 'crypto.RsaPublicKey'}
 
 
 class Builtins:
@@ -865,6 +866,15 @@ class Builtins:
                             raise VError(f'list element type changes from {elem} to {j} at {ex.where(node)}; '
                                          f'declare the list type')
                     z = z3.Concat(base.z, z3.Unit(to_z3(v, elem)))
+                    if elem.kind == 'ref':
+                        # index form of append for object lists (see list_remove)
+                        n = z3.Length(base.z)
+                        nl = z3.Const(fresh_name('appended'), base.z.sort())
+                        j2 = z3.Int(fresh_name('j'))
+                        p.add(z3.Length(nl) == n + 1)
+                        p.add(ops.nth(nl, n, elem) == to_z3(v, elem))
+                        p.add(z3.ForAll([j2], z3.Implies(z3.And(0 <= j2, j2 < n), ops.nth(nl, j2, elem) == ops.nth(base.z, j2, elem))))
+                        z = nl
                 return [Res(p, (VList(elem, z), VNone))]
             if meth == 'pop' and not vals:
                 if base.elem is None:
@@ -875,7 +885,7 @@ class Builtins:
                 if q.assume(n == 0, ('pop', node.lineno)):
                     out.append(Res(q, exc=VExc('IndexError')))
                 if p.assume(n > 0):
-                    last = from_z3(base.z[n - 1], base.elem)
+                    last = from_z3(ops.nth(base.z, n - 1, base.elem), base.elem)
                     rest = z3.Extract(base.z, I(0), n - 1)
                     p.add(z3.Length(rest) == n - 1)
                     out.append(Res(p, (VList(base.elem, rest), last)))
@@ -934,14 +944,35 @@ class Builtins:
         n = z3.Length(base.z)
         out = []
         q = p.fork()
-        if q.assume(z3.Not(z3.Contains(base.z, z3.Unit(zv))), ('remove', node.lineno, 'absent')):
+        if base.elem.kind == 'ref':
+            ja = z3.Int(fresh_name('j'))
+            absent = z3.ForAll([ja], z3.Implies(z3.And(0 <= ja, ja < n), ops.nth(base.z, ja, base.elem) != zv))
+        else:
+            absent = z3.Not(z3.Contains(base.z, z3.Unit(zv)))
+        if q.assume(absent, ('remove', node.lineno, 'absent')):
             out.append(Res(q, exc=VExc('ValueError')))
         w = z3.Int(fresh_name('rm'))
         j = z3.Int(fresh_name('j'))
-        p.add(z3.And(0 <= w, w < n, base.z[w] == zv))
-        p.add(z3.ForAll([j], z3.Implies(z3.And(0 <= j, j < w), base.z[j] != zv)))
+        p.add(z3.And(0 <= w, w < n, ops.nth(base.z, w, base.elem) == zv))
+        p.add(z3.ForAll([j], z3.Implies(z3.And(0 <= j, j < w), ops.nth(base.z, j, base.elem) != zv)))
         new = z3.Concat(z3.Extract(base.z, I(0), w), z3.Extract(base.z, w + 1, n - w - 1))
         p.add(z3.Length(new) == n - 1)
+        if base.elem.kind == 'ref':
+            # index form of "the other elements keep their order" (both directions, with the position as a term,
+            # so that membership goals written with indexes find their witness by matching)
+            # the result is introduced as a fresh sequence determined by its length and its elements (no
+            # Concat / Extract term: the sequence solver and the quantified table facts do not mix well)
+            nl = z3.Const(fresh_name('removed'), base.z.sort())
+            p.add(z3.Length(nl) == n - 1)
+            new = nl
+            j2 = z3.Int(fresh_name('j'))
+            p.add(z3.ForAll([j2], z3.Implies(z3.And(0 <= j2, j2 < n, j2 != w),
+                                             ops.nth(new, z3.If(j2 < w, j2, j2 - 1), base.elem) == ops.nth(base.z, j2, base.elem)),
+                             patterns=[ops.nth(base.z, j2, base.elem)]))
+            j3 = z3.Int(fresh_name('j'))
+            p.add(z3.ForAll([j3], z3.Implies(z3.And(0 <= j3, j3 < n - 1),
+                                             ops.nth(new, j3, base.elem) == ops.nth(base.z, z3.If(j3 < w, j3, j3 + 1), base.elem)),
+                             patterns=[ops.nth(new, j3, base.elem)]))
         if p.feasible():
             p.trail.append(('remove', node.lineno, 'found'))
             out.append(Res(p, (VList(base.elem, new), VNone)))
@@ -967,10 +998,22 @@ class Builtins:
             if a is VNone:
                 return [Res(p, VBool(z3.BoolVal(False)))]
             if isinstance(a, VOpt) and isinstance(a.val, VRef):
-                return [Res(p, VBool(z3.And(z3.Not(a.isnone), z3.Contains(b.z, z3.Unit(a.val.z)))))]
+                return [Res(p, VBool(z3.And(z3.Not(a.isnone), self.ref_member(p, a.val.z, b.z))))]
             if isinstance(a, VRef):
-                return [Res(p, VBool(z3.Contains(b.z, z3.Unit(a.z))))]
+                return [Res(p, VBool(self.ref_member(p, a.z, b.z)))]
         raise Unsupported(f'`in` on list of {b.elem} at {ex.where(node)}')
+
+    def ref_member(self, p, x, l):
+        """membership of an object in a list of objects, in index form: a fresh boolean that implies a
+        witness position when true and excludes every position when false"""
+        m = z3.Bool(fresh_name('member'))
+        w = z3.Int(fresh_name('at'))
+        j = z3.Int(fresh_name('j'))
+        n = z3.Length(l)
+        REF = TRef('ikesa.IkeSa')
+        p.add(z3.Implies(m, z3.And(0 <= w, w < n, ops.nth(l, w, REF) == x)))
+        p.add(z3.Implies(z3.Not(m), z3.ForAll([j], z3.Implies(z3.And(0 <= j, j < n), ops.nth(l, j, REF) != x))))
+        return m
 
     def classes_with_eq(self, ex):
         return {q for q in HEAPCLASSES if ex.repo.find_method(q, '__eq__')}
@@ -1056,6 +1099,7 @@ class Builtins:
     def for_loop(self, ex, s, it, p, k, ls):
         """for-loops: hidden index over a range or a list, cut at the loop contract's invariant"""
         idx = ls.index or '_i'
+        backwards = False
         if isinstance(it, VRange):
             lo, hi = it.lo.z, it.hi.z
             seq = None
@@ -1063,8 +1107,12 @@ class Builtins:
             lo = I(0)
             hi = I(0) if it.elem is None else z3.Length(it.z)
             seq = it
-        elif isinstance(it, tuple) and it[0] == 'reversed':
-            raise Unsupported(f'for over reversed() at {ex.where(s)}')
+        elif isinstance(it, tuple) and it[0] == 'reversed' and isinstance(it[1], VList):
+            # reversed(list): the hidden index still counts 0, 1, ..; the item is taken from the far end
+            lo = I(0)
+            hi = I(0) if it[1].elem is None else z3.Length(it[1].z)
+            seq = it[1]
+            backwards = True
         elif isinstance(it, VTuple):
             return self.for_unrolled(ex, s, it.items, p)
         else:
@@ -1081,7 +1129,7 @@ class Builtins:
                 item = VInt(i.z)
                 rs = [Res(b, VNone)]
             else:
-                item, errs = ops.index(seq, i)
+                item, errs = ops.index(seq, VInt(hi - 1 - i.z) if backwards else i)
                 for c, e in errs:
                     if isinstance(c, str):
                         b.add(e)
